@@ -82,7 +82,7 @@ class Sandbox(object):
         try:
             os.rmdir(self.root)
         except OSError:
-            gc.collect()
+            gc.collect(1)
             shutil.rmtree(self.root, ignore_errors=True)
         return False
 
